@@ -16,6 +16,8 @@ GATE_MOD = 'cirbo.core.circuit.gate'
 
 
 class FakeGate(Host):
+    _repo_class_name = 'Gate'
+
     def __init__(self, label, gate_type, operands=()):
         self._label = label
         self._gate_type = gate_type
@@ -30,6 +32,8 @@ class FakeGate(Host):
 
 
 class FakeBlock(Host):
+    _repo_class_name = 'Block'
+
     def __init__(self, name, inputs, gates, outputs):
         self._name = name
         self._inputs = list(inputs)
@@ -45,6 +49,8 @@ class FakeBlock(Host):
 class FakeCircuit(Host):
     """Model of the Circuit state the converters touch. `emplace_gate` is the checked
     public constructor (refuses existing labels / missing operands, keeps the index)."""
+
+    _repo_class_name = 'Circuit'
 
     def __init__(self, input_type):
         self._gates: dict = {}
